@@ -82,3 +82,92 @@ func VerifC10DkgQualified(
 	drl.attemptCounter = attempt
 	return drl.qualifiedOperatorsSet(readyMembersIndexes)
 }
+
+// VerifC10SigningLoop is ONE signingRetryLoop built with the production
+// constructor and kept alive by the harness, the way start keeps it alive
+// across attempts. Select sets the attempt counter (as start does before every
+// attempt) and runs the selection on that same object, so consecutive calls
+// form the selection history of one member.
+type VerifC10SigningLoop struct {
+	srl *signingRetryLoop
+}
+
+// VerifC10NewSigningLoop builds the long-lived signing loop of one member.
+func VerifC10NewSigningLoop(
+	message *big.Int,
+	memberIndex group.MemberIndex,
+	operators chain.Addresses,
+	groupParameters *GroupParameters,
+) *VerifC10SigningLoop {
+	return &VerifC10SigningLoop{
+		srl: newSigningRetryLoop(
+			logger, message, 0, memberIndex, operators, groupParameters, nil, nil,
+		),
+	}
+}
+
+// Seed returns the attempt seed derived by the constructor.
+func (l *VerifC10SigningLoop) Seed() int64 {
+	return l.srl.attemptSeed
+}
+
+// Select runs performMembersSelection for the given attempt on this loop.
+func (l *VerifC10SigningLoop) Select(
+	attempt uint,
+	readyMembersIndexes []group.MemberIndex,
+) ([]group.MemberIndex, error) {
+	l.srl.attemptCounter = attempt
+	return l.srl.performMembersSelection(readyMembersIndexes)
+}
+
+// Qualified runs qualifiedOperatorsSet for the given attempt on this loop.
+func (l *VerifC10SigningLoop) Qualified(
+	attempt uint,
+	readyMembersIndexes []group.MemberIndex,
+) (map[chain.Address]bool, error) {
+	l.srl.attemptCounter = attempt
+	return l.srl.qualifiedOperatorsSet(readyMembersIndexes)
+}
+
+// VerifC10DkgLoop is ONE dkgRetryLoop built with the production constructor
+// and kept alive by the harness; see VerifC10SigningLoop.
+type VerifC10DkgLoop struct {
+	drl *dkgRetryLoop
+}
+
+// VerifC10NewDkgLoop builds the long-lived DKG loop of one member.
+func VerifC10NewDkgLoop(
+	seed *big.Int,
+	memberIndex group.MemberIndex,
+	operators chain.Addresses,
+	groupParameters *GroupParameters,
+) *VerifC10DkgLoop {
+	return &VerifC10DkgLoop{
+		drl: newDkgRetryLoop(
+			logger, seed, 0, memberIndex, operators, groupParameters, nil, 0,
+		),
+	}
+}
+
+// Seed returns the attempt seed derived by the constructor.
+func (l *VerifC10DkgLoop) Seed() int64 {
+	return l.drl.attemptSeed
+}
+
+// Select runs performMembersSelection for the given attempt on this loop.
+func (l *VerifC10DkgLoop) Select(
+	attempt uint,
+	readyMembersIndexes []group.MemberIndex,
+) ([]group.MemberIndex, error) {
+	l.drl.attemptCounter = attempt
+	return l.drl.performMembersSelection(readyMembersIndexes)
+}
+
+// Qualified runs qualifiedOperatorsSet for the given attempt on this loop.
+func (l *VerifC10DkgLoop) Qualified(
+	attempt uint,
+	readyMembersIndexes []group.MemberIndex,
+) (map[chain.Address]bool, error) {
+	l.drl.attemptCounter = attempt
+	return l.drl.qualifiedOperatorsSet(readyMembersIndexes)
+}
